@@ -604,7 +604,15 @@ def rule_nan(ctx):
                 # total weight 0 and one of positive weight; the arm that yields NaN must be taken in exactly the first two cases
                 def has_nan(arm):
                     return any(_is_nan(norm(x)) for st_ in arm for x in ast.walk(st_) if isinstance(x, (ast.Call, ast.Attribute)))
-                nan_in_body, nan_in_else = has_nan(gi[0].body), has_nan(gi[0].orelse)
+                else_arm = gi[0].orelse
+                if not else_arm and gi[0].body and isinstance(gi[0].body[-1], (ast.Return, ast.Raise, ast.Continue)):
+                    # `if test: ...; return` followed by the other case: the statements behind the `if` are its else arm
+                    blk_ = parent(gi[0])
+                    for fld_ in ("body", "orelse", "finalbody"):
+                        lst_ = getattr(blk_, fld_, None)
+                        if isinstance(lst_, list) and any(x_ is gi[0] for x_ in lst_):
+                            else_arm = lst_[[k_ for k_, x_ in enumerate(lst_) if x_ is gi[0]][0] + 1:]
+                nan_in_body, nan_in_else = has_nan(gi[0].body), has_nan(else_arm)
                 if nan_in_body != nan_in_else:
                     from ..order import Interp
                     verdicts = []
@@ -646,6 +654,10 @@ def rule_cdf(ctx):
                and norm(st.value) in ("ws.cumsum()", "np.cumsum(ws)")]
         nrm = [st for st in walk_no_nested(f.node) if isinstance(st, ast.AugAssign) and norm(st.target) == "ws_cum" and isinstance(st.op, ast.Div)
                and norm(st.value) == "ws_cum[-1]"]
+        if not nrm:
+            # out of place: ws_cum = ws_cum / ws_cum[-1], or the quotient returned / used directly
+            nrm = [st for st in walk_no_nested(f.node) if isinstance(st, (ast.Assign, ast.Return)) and st.value is not None
+                   and any(isinstance(n_, ast.BinOp) and isinstance(n_.op, ast.Div) and norm(n_.left) == "ws_cum" and norm(n_.right) == "ws_cum[-1]" for n_ in ast.walk(st.value))]
         ctx.ob("BMCI.%s.cumulative" % fname, bool(cum) and bool(nrm), "ws_cum: %s ; %s" % ([norm(s) for s in cum], [norm(s) for s in nrm]),
                "ws_cum = ws.cumsum(); ws_cum /= ws_cum[-1] (non-decreasing, ends at 1)", node=cum[0] if cum else f.node, func=f)
     f = ctx.func(BM, "BMCI.predict_quantiles")
